@@ -2978,3 +2978,8 @@ Proof.
     apply andb_true_iff in Hsstar. apply Hsstar.
   - unfold norm_ret. destruct (tokens_eqb _ _); [reflexivity|]. apply (verify_ok_lemma env). exact Hret.
 Qed.
+
+Corollary reparse_equal_parsed_lemma : forall env c t,
+  wf env t = true -> stable c t = true -> eq_stable c t = true -> unqual t = t ->
+  ty_eq (norm c t) t = true.
+Proof. intros env c t H1 H2 H3 E. rewrite <- E at 2. apply (reparse_equal_lemma env); assumption. Qed.
